@@ -4,6 +4,7 @@ import (
 	"bufio"
 	"bytes"
 	"crypto/ed25519"
+	"crypto/elliptic"
 	"crypto/rsa"
 	"encoding/json"
 	"fmt"
@@ -44,6 +45,7 @@ func init() {
 		Run:    runC18,
 	})
 	childModes["c18"] = c18child
+	childModes["c18cold"] = c18coldChild
 }
 
 // c18object is one shared object with its read-path operations.
@@ -558,6 +560,44 @@ func runC18(c *Ctx) {
 			rec.Violate("concurrent-result-differs", fmt.Sprint(mm["kind"], "/", mm["op"]), fmt.Sprintf("a concurrent call returned %v, sequential execution returns %v", mm["got"], mm["want"]), mm)
 		}
 	}
+	// ---------- cold start: the FIRST use of the library in a fresh process is concurrent ----------
+	// (lazily built package state would race here and nowhere else: every other part of this check has
+	//  used the library sequentially before its goroutines start)
+	coldRuns := c.N(6, 30)
+	for cr := 0; cr < coldRuns; cr++ {
+		logBase := filepath.Join(dir, fmt.Sprintf("cold-%d", cr))
+		cmd := exec.Command(raceBin, "child", "c18cold", strconv.FormatInt(c.Seed+int64(cr), 10))
+		cmd.Env = append(os.Environ(), "GORACE=halt_on_error=0 log_path="+logBase+" history_size=3", "GOTRACEBACK=all")
+		var out bytes.Buffer
+		cmd.Stdout = &out
+		cmd.Stderr = &out
+		runErr := cmd.Run()
+		logs, _ := filepath.Glob(logBase + "*")
+		for _, lp := range logs {
+			b, _ := os.ReadFile(lp)
+			for _, blk := range strings.Split(string(b), "==================") {
+				if !strings.Contains(blk, "WARNING: DATA RACE") {
+					continue
+				}
+				raceBlocks++
+				key := "cold-start: " + raceKey(blk)
+				if _, ok := raceSeen[key]; !ok {
+					raceSeen[key] = blk
+				}
+			}
+		}
+		rec.Event("cold-start-runs")
+		if strings.Contains(out.String(), "COLD-MISMATCH") {
+			rec.Violate("concurrent-result-differs", "cold-start", "an operation that is the process's first use of the library gave a wrong result: "+firstLines(out.String(), 5), map[string]any{"run": cr})
+		} else if runErr != nil && len(logs) == 0 {
+			if strings.Contains(out.String(), "fatal error") || strings.Contains(out.String(), "panic") {
+				rec.Violate("runtime-abort", "cold-start", "the cold-start workload crashed: "+firstLines(out.String(), 30), map[string]any{"run": cr})
+			} else {
+				rec.HarnessError("C18: cold-start child failed: " + runErr.Error() + "\n" + firstLines(out.String(), 10))
+			}
+		}
+	}
+	rec.Require("cold-start-runs", 3)
 	keys := make([]string, 0, len(raceSeen))
 	for k := range raceSeen {
 		keys = append(keys, k)
@@ -790,4 +830,114 @@ func clip(s string) string {
 		return s[:200] + "..."
 	}
 	return s
+}
+
+// c18coldChild: nothing in this process touches the library before the barrier opens; the inputs are
+// written and signed by the reference implementation with standard-library keys.
+func c18coldChild(args []string) int {
+	seed := int64(1)
+	if len(args) > 0 {
+		seed, _ = strconv.ParseInt(args[0], 10, 64)
+	}
+	r := mon.NewRand(uint64(seed)).Sub(209000)
+	ec := gen.ECKey(elliptic.P256(), r)
+	ed := gen.EdKey(r)
+	refEC := gen.RefKey{Alg: -7, Priv: ec, Pub: &ec.PublicKey}
+	refEd := gen.RefKey{Alg: -8, Priv: ed, Pub: ed.Public()}
+	mkSign1 := func(k gen.RefKey, extra ...*refcbor.Node) []byte {
+		prot := refcbor.NMap(append([]*refcbor.Node{refcbor.NInt(1), refcbor.NInt(k.Alg)}, extra...)...)
+		wm := &gen.WSign1{L: gen.WLayer{ProtMap: prot, Unprot: refcbor.NMap(refcbor.NInt(4), refcbor.NBstr([]byte("kid")))}, Payload: make([]byte, 32), Tagged: true}
+		wm.Sig = gen.RefSign(k, wm.TBS(nil, wm.Payload))
+		return wm.Bytes()
+	}
+	s1 := mkSign1(refEC)
+	s1ed := mkSign1(refEd)
+	env := mkSign1(refEC, refcbor.NInt(258), refcbor.NInt(-16))
+	size := 32
+	keyBytes := refcbor.Encode(gen.KeyMap([]gen.KeyEntry{{Label: refcbor.NInt(1), Value: refcbor.NInt(2)}, {Label: refcbor.NInt(-1), Value: refcbor.NInt(1)},
+		{Label: refcbor.NInt(-2), Value: refcbor.NBstr(ec.X.FillBytes(make([]byte, size)))}, {Label: refcbor.NInt(-3), Value: refcbor.NBstr(ec.Y.FillBytes(make([]byte, size)))}}))
+	ops := []func() string{
+		func() string {
+			v, err := cose.NewVerifier(cose.AlgorithmES256, &ec.PublicKey)
+			if err != nil {
+				return "NewVerifier: " + err.Error()
+			}
+			var m cose.Sign1Message
+			if err := m.UnmarshalCBOR(s1); err != nil {
+				return "UnmarshalCBOR: " + err.Error()
+			}
+			return resErr(m.Verify(nil, v))
+		},
+		func() string {
+			v, err := cose.NewVerifier(cose.AlgorithmES256, &ec.PublicKey)
+			if err != nil {
+				return "NewVerifier: " + err.Error()
+			}
+			_, err = cose.VerifyHashEnvelope(v, env)
+			return resErr(err)
+		},
+		func() string {
+			v, err := cose.NewVerifier(cose.AlgorithmEdDSA, ed.Public())
+			if err != nil {
+				return "NewVerifier: " + err.Error()
+			}
+			var m cose.UntaggedSign1Message
+			if err := m.UnmarshalCBOR(s1ed[1:]); err != nil {
+				return "UnmarshalCBOR: " + err.Error()
+			}
+			return resErr(m.Verify(nil, v))
+		},
+		func() string {
+			var k cose.Key
+			if err := k.UnmarshalCBOR(keyBytes); err != nil {
+				return "Key.UnmarshalCBOR: " + err.Error()
+			}
+			v, err := k.Verifier()
+			if err != nil {
+				return "Key.Verifier: " + err.Error()
+			}
+			var m cose.Sign1Message
+			if err := m.UnmarshalCBOR(s1); err != nil {
+				return "UnmarshalCBOR: " + err.Error()
+			}
+			return resErr(m.Verify(nil, v))
+		},
+		func() string {
+			sg, err := cose.NewSigner(cose.AlgorithmEdDSA, ed)
+			if err != nil {
+				return "NewSigner: " + err.Error()
+			}
+			b, err := cose.Sign1(gen.Entropy, sg, cose.Headers{Protected: cose.ProtectedHeader{int64(1): cose.AlgorithmEdDSA}}, []byte("p"), nil)
+			if err != nil || len(b) == 0 {
+				return "Sign1: " + resErr(err)
+			}
+			return "ok"
+		},
+		func() string {
+			var h cose.ProtectedHeader
+			return resErr(h.UnmarshalCBOR([]byte{0x43, 0xa1, 0x01, 0x26}))
+		},
+	}
+	const G = 12
+	var start, done sync.WaitGroup
+	start.Add(1)
+	results := make([]string, G)
+	for g := 0; g < G; g++ {
+		done.Add(1)
+		go func(g int) {
+			defer done.Done()
+			start.Wait()
+			results[g] = ops[(g+int(seed))%len(ops)]()
+		}(g)
+	}
+	start.Done()
+	done.Wait()
+	rc := 0
+	for g, res := range results {
+		if res != "ok" && res != "<nil>" && res != "nil" {
+			fmt.Printf("COLD-MISMATCH goroutine %d op %d: %s\n", g, (g+int(seed))%len(ops), res)
+			rc = 1
+		}
+	}
+	return rc
 }
